@@ -157,6 +157,19 @@ pub fn generate(kind: &str, thorough: bool, seed: u64, corpus: &str, out: &mut O
                     trace_case(&si, t, out);
                 }
             }
+            // a schema block that names only some roots while object types `Mutation` / `Subscription` exist (and variants where
+            // `Subscription` is not an object type, or is absent): the type in scope below each kind of operation
+            for (n, sdl) in [("ambig", schemas::AMBIG.to_string()),
+                             ("ambig-iface", "schema { query: Query }\ntype Query { a: Int }\ninterface Subscription { s: Int }\ntype Impl implements Subscription { s: Int }\nunion Mutation = Query | Impl\n".to_string()),
+                             ("ambig-none", "schema { query: Query mutation: Query }\ntype Query { a: Int  s: Int }\n".to_string()),
+                             ("ambig-q", "schema { subscription: S }\ntype S { s: Int  t: Int }\ntype Query { a: Int }\ntype Mutation { m: Int }\ntype Subscription { s: Int  zz: Int }\n".to_string())] {
+                let si = gen::SchemaInfo::new(n, &format!("{}{}", schemas::PRELUDE, sdl));
+                out.schema(&si);
+                for t in ["subscription { s }", "subscription S { s t zz }", "subscription { s { x } ... on Subscription { t } ...F } fragment F on Subscription { s }", "mutation { m }", "mutation { m zz ... on Mutation { m } }",
+                          "{ a }", "query { a zz }", "subscription { __typename s @skip(if: true) }", "subscription { ... { s zz } }", "mutation M { ... { m } }"] {
+                    trace_case(&si, t, out);
+                }
+            }
             // literals nested deeper than any fixed bound one might pick (the parser allows about fifty brackets)
             {
                 let si = gen::SchemaInfo::new("deep-values", &format!("{}{}", schemas::PRELUDE, "input Rec { n: Rec  l: [Rec]  v: Int }\nscalar Any\ntype Query { f(r: Rec, a: Any, ll: [[[[Int]]]]): Int }"));
@@ -193,6 +206,16 @@ pub fn generate(kind: &str, thorough: bool, seed: u64, corpus: &str, out: &mut O
             svisit_case("ambig", &format!("{}{}", schemas::PRELUDE, schemas::AMBIG), out);
             svisit_case("with-extension", &format!("{}{}", schemas::PRELUDE, "type Query { a: Int } extend type Query { b: Int } enum E { X }"), out);
             svisit_case("tiny", "scalar Int", out);
+            // type definitions whose names start with `__` (the introspection types as printed from an introspection result, and others): visited like any other
+            svisit_case("intro-names", "scalar Int scalar String scalar Boolean\ntype Query { a: Int  s: __Schema  t(name: String!): __Type }\ntype __Schema { types: [__Type!]!  queryType: __Type!  directives: [__Directive!]! }\n\
+type __Type { kind: __TypeKind!  name: String  fields(includeDeprecated: Boolean = false): [__Field!]  ofType: __Type }\nenum __TypeKind { SCALAR OBJECT INTERFACE UNION ENUM INPUT_OBJECT LIST NON_NULL }\n\
+type __Field { name: String!  args: [__InputValue!]!  type: __Type! }\ntype __InputValue { name: String!  type: __Type!  defaultValue: String }\ntype __EnumValue { name: String!  isDeprecated: Boolean! }\n\
+type __Directive { name: String!  locations: [__DirectiveLocation!]!  args: [__InputValue!]! }\nenum __DirectiveLocation { QUERY FIELD }\n\
+scalar __Custom\ninput __In { x: Int  y: __In }\ninterface __Node { id: Int }\nunion __U = __Field | __Directive\ntype __typename { a: Int }\ntype Schema { a: Int }\ntype Type { a: Int }", out);
+            for n in ["__Schema", "__Type", "__TypeKind", "__Field", "__InputValue", "__EnumValue", "__Directive", "__DirectiveLocation", "__X", "_Type", "Type__"] {
+                svisit_case(&format!("intro-{}", n), &format!("scalar Int\ntype Query {{ a: Int }}\ntype {} {{ f(x: Int): Int }}\nenum E {{ X }}", n), out);
+                svisit_case(&format!("intro-enum-{}", n), &format!("scalar Int\nenum {} {{ A B }}\ntype Query {{ a: Int }}", n), out);
+            }
             for i in 0..(60 * scale) { let t = gen::random_schema(&mut rng); svisit_case(&format!("random{}", i), &t, out); }
         }
         "ext" => {
@@ -233,6 +256,20 @@ pub fn generate(kind: &str, thorough: bool, seed: u64, corpus: &str, out: &mut O
                     let spreads: String = (0..n).map(|i| format!(" ...N{}", i)).collect();
                     crate::valcases::validate_case(&si, &format!("{{{}{} }}", fields, spreads), &tmp, out);
                     crate::valcases::validate_case(&si, &format!("{{ zzz{} }} query B {{ zzz(a: 1, b: 2){} }}", spreads, fields), &tmp, out);
+                }
+            }
+            // documents of several thousand selections (machine-generated queries) with errors of many rules at the very end: every
+            // rule of the plan sees every selection, however many selections the rules before it have walked
+            {
+                let si = gen::SchemaInfo::new("wide", &format!("{}{}", schemas::PRELUDE, "directive @on(a: Int) on FIELD\ninput In { x: Int! }\ntype T { a: Int  t: T }\ntype Query { a: Int  f(x: Int!, i: In): Int  t: T }"));
+                out.schema(&si);
+                let sizes: &[usize] = if thorough { &[1200, 4400, 9000, 21000] } else { &[4400] };
+                for &n in sizes {
+                    let fields: String = (0..n).map(|i| format!(" k{}: a", i)).collect();
+                    let tail = "zz f(x: \"s\", y: 1) g: f k0: f(x: 1) a @nope a @on(a: $u) t t { a { a } } ...Nope ... on In { a } f(x: 1, i: {x: null, y: 2}) f(x: 1, x: 2) a @on @on";
+                    crate::valcases::validate_case(&si, &format!("query Q($v: Int, $v: In) {{{} {} }} fragment Unused on T {{ a }}", fields, tail), &tmp, out);
+                    // the same below a field and inside a fragment
+                    crate::valcases::validate_case(&si, &format!("{{ t {{ t {{{} zz }} }} ...F }} fragment F on Query {{ t {{ t {{ t {{ a zz }} }} }} {} }}", (0..n / 2).map(|i| format!(" k{}: a", i)).collect::<String>(), tail), &tmp, out);
                 }
             }
             // documents where one rule's subject is another rule's lookup: fragments that are unused AND spread (by other
@@ -447,8 +484,15 @@ pub fn generate(kind: &str, thorough: bool, seed: u64, corpus: &str, out: &mut O
                         });
                     } }
                 }
+                if si.name == "merge-abstract" {
+                    // three same-key fields of which only two conflict, in every order: the conflicting pair is not always adjacent to the first
+                    let tri = ["... on Dog { x: name }", "... on Cat { x: name }", "... on Cat { x: nick }"];
+                    for o in [[0, 1, 2], [0, 2, 1], [1, 0, 2], [1, 2, 0], [2, 0, 1], [2, 1, 0]] { docs.push(format!("{{ pet {{ {} {} {} }} }}", tri[o[0]], tri[o[1]], tri[o[2]])); }
+                }
                 if si.name == "merge-order" {
                     docs.clear();
+                    let tri = ["self { nn }", "self { x: name }", "self { x: nn }"];
+                    for o in [[0, 1, 2], [0, 2, 1], [1, 0, 2], [1, 2, 0], [2, 0, 1], [2, 1, 0]] { docs.push(format!("{{ human {{ {} {} {} }} }}", tri[o[0]], tri[o[1]], tri[o[2]])); }
                     for t in ["{ human { t: self { x: name ...A ...F } } } fragment A on Human { ...G1 } fragment F on Human { ...G1 ...G2 } fragment G1 on Human { nn } fragment G2 on Human { x: nn }",
                               "{ human { g: self { nn } g: self { ...F2 } t: self { x: name } t: self { ...F2 } } } fragment F2 on Human { ...F3 } fragment F3 on Human { x: nn }",
                               "{ human { x: name ...A } } fragment A on Human { ...B self { ...B } } fragment B on Human { x: nn }",
@@ -1321,6 +1365,17 @@ pub fn generate(kind: &str, thorough: bool, seed: u64, corpus: &str, out: &mut O
                 let text = format!("query {} fragment F on T {{ a ...G }} fragment G on I {{ k: a ...F ...Nope ...H }} fragment H on V {{ a v {{ ...H }} }}", b);
                 crate::collectcases::collect_case(&si, &text, out);
             }
+            // chains of named fragments far longer than any selection set can nest: the field at the end of the chain is collected
+            {
+                let si = gen::SchemaInfo::new("chain", &format!("{}{}", schemas::PRELUDE, "type Query { a: Int  b: Int }"));
+                out.schema(&si);
+                let lens: &[usize] = if thorough { &[130, 300, 1100, 2100, 4200] } else { &[130, 1100] };
+                for &n in lens {
+                    let mut t = String::from("{ ...F0 b }");
+                    for j in 0..n { t.push_str(&format!(" fragment F{} on Query {{ {} }}", j, if j + 1 < n { format!("...F{}", j + 1) } else { "a k: b".to_string() })); }
+                    crate::collectcases::collect_case_sets(&si, &t, false, out);
+                }
+            }
             for si in pool() {
                 out.schema(&si);
                 for t in corpus_docs(corpus, &si.name) { crate::collectcases::collect_case(&si, &t, out); }
@@ -1396,8 +1451,20 @@ pub fn generate(kind: &str, thorough: bool, seed: u64, corpus: &str, out: &mut O
                     let args: Vec<String> = (0..len).map(|i| format!("a{}: {}", i, (mask >> i) & 1)).collect();
                     let text = if len == 0 { "{ f }".to_string() } else { format!("{{ f({}) }}", args.join(", ")) };
                     let mut h = none.clone();
-                    h[9] = Some(crate::transform::Probe { modulus: 2, residue: 1, marker: "R_value".into() });
+                    h[9] = Some(crate::transform::Probe { modulus: 2, residue: 1, marker: "R_value".into(), nullify: false });
                     crate::transform::transform_case(&text, &h, out);
+                }
+            }
+            // a value hook that answers `null`: in argument values, list items, object fields, variable defaults (a replacement,
+            // not an absence) - every value of the document is hit (modulus 1)
+            for text in ["query ($a: Int = 1, $b: [Int] = [1, 2], $c: In = {x: 1}, $d: Int, $e: Int = null) { f(x: $a, y: [1, null], z: {k: 2}) @skip(if: true) }",
+                         "query Q($v: String = \"s\") { a } mutation M($v: Boolean = true, $w: E = X) { m(i: $v) }", "fragment F on T { g(i: 3) @d(a: [[1]], b: {c: {d: E}}) }"] {
+                for (m, r) in [(1usize, 0usize), (2, 0), (2, 1), (3, 1)] {
+                    let mut h = none.clone();
+                    h[9] = Some(crate::transform::Probe { modulus: m, residue: r, marker: "R_value".into(), nullify: true });
+                    crate::transform::transform_case(text, &h, out);
+                    h[10] = Some(crate::transform::Probe { modulus: 1, residue: 0, marker: "R_varDef".into(), nullify: false });
+                    crate::transform::transform_case(text, &h, out);
                 }
             }
             for si in pool() {
@@ -1408,7 +1475,7 @@ pub fn generate(kind: &str, thorough: bool, seed: u64, corpus: &str, out: &mut O
                         if rng.pct(35) {
                             let mut h = none.clone();
                             let m = rng.range(1, 3);
-                            h[i] = Some(crate::transform::Probe { modulus: m, residue: rng.below(m), marker: format!("R_{}", crate::transform::HOOKS[i]) });
+                            h[i] = Some(crate::transform::Probe { modulus: m, residue: rng.below(m), marker: format!("R_{}", crate::transform::HOOKS[i]), nullify: i == 9 && rng.pct(40) });
                             crate::transform::transform_case(&t, &h, out);
                         }
                     }
